@@ -339,6 +339,14 @@ pub fn check(tier: Tier) -> i32 {
 	report.set("exhaustive", json!(all_complete));
 	report.set("failures_per_class", json!(per_class));
 	report.assume("no commit is in flight during checkpoint/restore (single-threaded driver)");
+	// schedule part: a checkpoint taken (no commit in flight) while a compaction round and a
+	// background flush are running; the checkpoint is then opened on its own
+	let code = crate::props::sched::run_into(&mut report, "C14", tier, if tier == Tier::Quick { 10.0 } else { 200.0 });
+	if code != 0 {
+		return code;
+	}
+	let ex = report.coverage.get("exhaustive").and_then(|v| v.as_bool()).unwrap_or(true);
+	report.set("exhaustive", json!(ex && all_complete));
 	report.finish()
 }
 
